@@ -810,13 +810,29 @@ class Splicer:
                 dele(s0, e0, 'R14', o['call'])
                 self.g.rewrites['R14'] = self.g.rewrites.get('R14', 0) - 1
                 self.emit_outline(f, fnkey, o, mm.group(0))
+            # R12 (arguments): a call whose arguments ghost code must name is rewritten to bind them to locals first, in evaluation order:
+            #   f(a1, a2)  ->  { let x1 = a1; let x2 = a2; proof { .. x1 .. x2 .. } f(x1, x2) }
+            for (rx, template, wtags, wname) in getattr(fc, 'rebind', []):
+                ms = list(re.finditer(rx, txt))
+                if len(ms) != 1:
+                    self.lose('call %r in %s (%s; %d matches)' % (rx, fnkey, wname, len(ms)), set(wtags.split()))
+                    continue
+                mm = ms[0]
+                m = self.marker('assert', fnkey, f, 0, set(wtags.split()), Clause(template, wtags, name=wname))
+                t2 = template.replace('/*@*/', '/*@' + m + '*/')
+                for gi, gv in enumerate(mm.groups(), 1):
+                    t2 = t2.replace('{g%d}' % gi, gv or '')
+                dele(b0 + len(txt[:mm.start()].encode()), b0 + len(txt[:mm.end()].encode()), 'R12', t2)
             for (rx, text, wtags, wname) in getattr(fc, 'wrap_exprs', []):
                 ms = list(re.finditer(rx, txt))
                 if not ms:
                     self.lose('expression %r in %s (%s)' % (rx, fnkey, wname), set(wtags.split()))
                 for mm in ms:
                     m = self.marker('assert', fnkey, f, 0, set(wtags.split()), Clause(text, wtags, name=wname))
-                    ins(b0 + len(txt[:mm.start()].encode()), '{ ' + text + ' /*@' + m + '*/ ', {'rule': 'R8'})
+                    wtext = text
+                    for gi, gv in enumerate(mm.groups(), 1):
+                        wtext = wtext.replace('{g%d}' % gi, gv or '')   # the ghost text may name sub-expressions of the wrapped expression
+                    ins(b0 + len(txt[:mm.start()].encode()), '{ ' + wtext + ' /*@' + m + '*/ ', {'rule': 'R8'})
                     ins(b0 + len(txt[:mm.end()].encode()), ' }', {'rule': 'R8'})
                     self.g.count('R8')
             # R11: alpha renaming of binders
